@@ -873,13 +873,18 @@ class World:
             src = "def %s(%s):\n    return _hit()\n" % (name, plist)
         elif style == "async":
             src = "async def %s(%s):\n    return await _ahit()\n" % (name, plist)
-        elif style == "awaitable":
+        elif style in ("awaitable", "marked"):
             # the condition returns an awaitable that is not a coroutine (as asyncio.gather(...) or a Future would be)
             ns["_Aw"] = _Awaitable
             src = "def %s(%s):\n    return _Aw(_ahit())\n" % (name, plist)
         else:
             src = "def %s(%s):\n    return _ahit()\n" % (name, plist)
         exec(src, ns)  # pylint: disable=exec-used
+        if style == "marked":
+            # ... and is declared a coroutine function by an adapter (inspect.markcoroutinefunction, as sync-to-async bridges do)
+            import inspect as _inspect
+
+            return _inspect.markcoroutinefunction(ns[name])
         return ns[name]
 
     @staticmethod
